@@ -85,12 +85,12 @@ def generate(ctx):
     descs = TE.extract_tree(root)
     crs = TE.check_random_state_desc(root)
     gdir = os.path.join(core.LEAN_DIR, 'SkNet', 'Generated')
-    _write_if_changed(os.path.join(gdir, 'Prange.lean'), TP.emit_lean(loops, flags))
-    _write_if_changed(os.path.join(gdir, 'EstimatorState.lean'), TE.emit_lean(descs, crs))
-    # the kernel-check file is rewritten in run(); make sure a stale one never blocks the build of the library
+    ch1 = _write_if_changed(os.path.join(gdir, 'Prange.lean'), TP.emit_lean(loops, flags))
+    ch2 = _write_if_changed(os.path.join(gdir, 'EstimatorState.lean'), TE.emit_lean(descs, crs))
+    # the kernel-check file is rewritten in run(); a stale one (verdicts of other data) must never block a build
     ob = os.path.join(gdir, 'C16Obligations.lean')
-    if not os.path.exists(ob):
-        _write_if_changed(ob, '/- generated by tools/harness/c16.py -/\n')
+    if ch1 or ch2 or not os.path.exists(ob):
+        _write_if_changed(ob, '/- generated by tools/harness/c16.py (placeholder until the next run) -/\n')
     _GEN.update({'loops': loops, 'flags': flags, 'descs': {d['name']: d for d in descs}, 'crs': crs,
                  'loop_ident': {l['name']: TP.lean_ident(l['name']) for l in loops},
                  'est_ident': {d['name']: TE.lean_ident(d['name']) for d in descs}})
